@@ -5,6 +5,7 @@ package main
 
 import (
 	"fmt"
+	"sort"
 	"go/token"
 	"go/types"
 	"strings"
@@ -205,6 +206,35 @@ func (c *Canon) s(v ssa.Value) string {
 		if sv := singleStore(x); sv != nil {
 			return c.S(sv)
 		}
+		if x.Comment == "varargs" {
+			// the argument array of a variadic call: list of the stored elements, in index order
+			type el struct {
+				i int64
+				s string
+			}
+			var els []el
+			for _, r := range *x.Referrers() {
+				ia, ok := r.(*ssa.IndexAddr)
+				if !ok {
+					continue
+				}
+				ic, ok := ia.Index.(*ssa.Const)
+				if !ok {
+					continue
+				}
+				for _, rr := range *ia.Referrers() {
+					if st, ok := rr.(*ssa.Store); ok && st.Addr == ssa.Value(ia) {
+						els = append(els, el{ic.Int64(), c.S(st.Val)})
+					}
+				}
+			}
+			sort.Slice(els, func(i, j int) bool { return els[i].i < els[j].i })
+			var parts []string
+			for _, e := range els {
+				parts = append(parts, e.s)
+			}
+			return "varargs{" + strings.Join(parts, ",") + "}"
+		}
 		return "cell:" + x.Name() + ":" + x.Comment
 	case *ssa.Phi:
 		if c.PhiEdge != nil {
@@ -234,6 +264,9 @@ func (c *Canon) s(v ssa.Value) string {
 		}
 		if x.High != nil {
 			hi = c.S(x.High)
+		}
+		if a, ok := x.X.(*ssa.Alloc); ok && a.Comment == "varargs" && lo == "" && hi == "" {
+			return c.S(a)
 		}
 		return c.S(x.X) + "[" + lo + ":" + hi + "]"
 	case *ssa.MakeClosure:
@@ -286,7 +319,7 @@ func (c *Canon) call(cc *ssa.CallCommon, v ssa.Value) string {
 			return b.Name() + "(" + c.S(cc.Args[0]) + ")"
 		}
 	}
-	if fn := staticCallee(cc); fn != nil {
+	if fn := staticCallee(cc); fn != nil && fn.Pkg == c.W.SPkg {
 		if f, ok := isPureGetter(fn); ok {
 			return "get:" + f + "(" + c.S(cc.Args[0]) + ")"
 		}
